@@ -493,3 +493,26 @@ mutant('C17', 'disregistry below minus above', DRF, "disregistry = abovedispinte
 mutant('C17', 'disregistry initial box', DRF, "disp = displacement(basesystem, dislsystem)", "disp = displacement(basesystem, dislsystem, box_reference='initial')", 'DISREGISTRY')
 mutant('C17', 'ddvectors sign', DDF, "ddvectors = dvectors1 - dvectors0", "ddvectors = dvectors0 - dvectors1", 'DDVECTORS')
 mutant('C17', 'dd neighbour list always from system0', DDF, "self.__neighbors = neighbors = refsystem.neighborlist(cutoff=cutoff)", "self.__neighbors = neighbors = system0.neighborlist(cutoff=cutoff)", 'DDVECTORS')
+
+# ------------------------------------------------------------------ C14
+FSBF = 'atomman/defect/free_surface_basis.py'
+FSF = 'atomman/defect/FreeSurface.py'
+SFF = 'atomman/defect/StackingFault.py'
+mutant('C14', 'h0l arm vector flipped', FSBF, "a_uvw = np.array([m / hkl[0], 0, -m / hkl[2]], dtype=int)", "a_uvw = np.array([-m / hkl[0], 0, m / hkl[2]], dtype=int)", 'PLANE-TABLE')
+mutant('C14', '0kl sign from k only', FSBF, "s = np.sign(hkl[1] * hkl[2])", "s = np.sign(hkl[1])", 'PLANE-TABLE')
+mutant('C14', 'out-of-plane search starts at 180', FSBF, "c_angle = 90", "c_angle = 180", 'SEARCH')
+mutant('C14', 'handedness test dropped', FSBF, "if np.dot(np.cross(a_cart, cart), planenormal) > 0:", "if True:", 'SEARCH')
+mutant('C14', 'cutboxvector b rows not cyclic', FSBF, "uvws = np.array([b_uvw, c_uvw, a_uvw])", "uvws = np.array([a_uvw, c_uvw, b_uvw])", 'SEARCH')
+mutant('C14', 'cut a refusal weakened', FSF, "if rcell.box.bvect[0] != 0.0 or rcell.box.cvect[0] != 0.0:", "if rcell.box.bvect[0] != 0.0 and rcell.box.cvect[0] != 0.0:", 'FREE-SURFACE')
+mutant('C14', 'cut c checks wrong component', FSF, "if rcell.box.avect[2] != 0.0 or rcell.box.bvect[2] != 0.0:", "if rcell.box.avect[1] != 0.0 or rcell.box.bvect[2] != 0.0:", 'FREE-SURFACE')
+mutant('C14', 'shifts at the planes not between', FSF, "relshifts = rcellwidth - (coords[1:] + coords[:-1]) / 2", "relshifts = rcellwidth - coords[1:]", 'FREE-SURFACE')
+mutant('C14', 'periodic copy never appended', FSF, "        coords = np.append(coords, coords[0] + rcellwidth)\n", "        pass\n", 'FREE-SURFACE')
+mutant('C14', 'surface wraps before shifting', FSF, "        system.atoms.pos += shift\n        system.wrap()", "        system.wrap()\n        system.atoms.pos += shift", 'FREE-SURFACE')
+mutant('C14', 'surface non-periodic in wrong direction', FSF, "system.pbc[self.cutindex] = False", "system.pbc[self.cutindex - 1] = False", 'FREE-SURFACE')
+mutant('C14', 'vacuum origin moves by full width', FSF, "neworigin = system.box.origin - ovect * vacuumwidth / 2", "neworigin = system.box.origin - ovect * vacuumwidth", 'FREE-SURFACE')
+mutant('C14', 'faultpos_rel forgets origin', SFF, "self.__faultpos_cart = self.system.box.origin[self.cutindex] + self.faultpos_rel * self.system.box.vects[self.cutindex, self.cutindex]", "self.__faultpos_cart = self.faultpos_rel * self.system.box.vects[self.cutindex, self.cutindex]", 'FAULT')
+mutant('C14', 'mask non-strict in one setter', SFF, "        self.__faultpos_cart = value\n        self.__abovefault = self.system.atoms.pos[:, self.cutindex] > self.faultpos_cart", "        self.__faultpos_cart = value\n        self.__abovefault = self.system.atoms.pos[:, self.cutindex] >= self.faultpos_cart", 'FAULT')
+mutant('C14', 'fault moves atoms below', SFF, "sfsystem.atoms.pos[self.abovefault] += faultshift\n        sfsystem.wrap()\n        \n        if minimum_r", "sfsystem.atoms.pos[~self.abovefault] += faultshift\n        sfsystem.wrap()\n        \n        if minimum_r", 'FAULT')
+mutant('C14', 'fault edits the stored system', SFF, "sfsystem = deepcopy(self.system)", "sfsystem = self.system", 'FAULT')
+mutant('C14', 'a2 fraction applied to a1 vector', SFF, "faultshift = a1 * self.a1vect_cart + a2 * self.a2vect_cart + outofplane * ovect", "faultshift = a1 * self.a1vect_cart + a2 * self.a1vect_cart + outofplane * ovect", 'FAULT')
+mutant('C14', 'a2 setter accepts out-of-plane vector', SFF, "        if not np.isclose(cart[self.cutindex], 0.0):\n            raise ValueError(f\"shift vector {value} not in fault plane {self.hkl}\")\n        \n        self.__a2vect_uvw = value", "        self.__a2vect_uvw = value", 'FAULT')
